@@ -398,6 +398,42 @@ def ob_link(v: int, lv: int, absolute: bool, lerr: bool) -> bool:
     return check(ok and (not out.is_error) and out.data.v == v + lv and CALLS == ["addn"], "ok")
 
 
+def ob_extras_order(v: int, e1: str, n2: int) -> bool:
+    """
+    pre: 0 <= v <= 9 and len(e1) <= 1 and all(97 <= ord(c) <= 122 for c in e1) and 0 <= n2 <= 9
+    post: _
+    """
+    # extra positional parameters are APPENDED to the textual ones: add2(x, a:int, b="d", *rest) on "p/add2-4"
+    sp = mkstate("p", Box(v))
+    ctx = HContext(NoCache(), {"p": sp})
+    with quiet():
+        out = ctx.evaluate("p/add2-4", extra_parameters=[e1, "r2"])       # (the variadic tail takes text only)
+    ok = (not out.is_error) and out.data.v == (v, 4, e1, ("r2",))
+    ctx2 = HContext(NoCache(), {"p": mkstate("p", Box(v))})
+    with quiet():
+        out2 = ctx2.evaluate("p/echo-t", extra_parameters=[n2])
+    ok = ok and (not out2.is_error) and out2.data.v == ("t", n2) and type(out2.data.v[1]) is int
+    return check(ok)
+
+
+def ob_link_untyped(v: int, lv: int, kind: int) -> bool:
+    """
+    pre: 0 <= v <= 9 and 0 <= lv <= 9 and 0 <= kind <= 2
+    post: _
+    """
+    # the VALUE of a link reaches an un-annotated parameter unchanged (an int stays an int, a list a list, a Box a Box)
+    kind = pick(kind, 3)
+    val = [lv, [lv, "x"], Box(lv)][kind]
+    sp = mkstate("p", Box(v))
+    ctx = HContext(NoCache(), {"p": sp, "/lnk": mkstate("/lnk", val)})
+    with quiet():
+        out = ctx.evaluate("p/echo-~X~/lnk~E-s")
+    ok = (not out.is_error) and [a[0] for a in ctx.asked] == ["p", "/lnk"]
+    got = out.data.v[0] if not out.is_error else None
+    ok = ok and type(got) is type(val) and got == val and out.data.v[1] == "s"
+    return check(ok)
+
+
 # ------------------------------------------------------------------ (e) predecessor algebra
 def ob_predecessor(kinds: List[int], nacts: List[int], fname: bool) -> bool:
     """
@@ -472,5 +508,7 @@ def obligations(tier):
             for le in (True, False):
                 obs.append(Ob("ob_link", dict(depth2=d2, abs=ab, lerr=le), timeout=t, per_path=60, twin_timeout=60,
                               bounds="(d) %s link%s, %s sub-state, symbolic values 0..9 (one digit class: the values are rendered by json.dumps / int())" % ("absolute" if ab else "relative", " containing a nested link" if d2 else "", "failing" if le else "succeeding")))
+    obs.append(Ob("ob_extras_order", {}, timeout=t, per_path=60, twin_timeout=60, bounds="(a,c) extra positional parameters appended after the textual ones: add2-4 + [str |s|<=1, int 0..9]; echo-t + [int]"))
+    obs.append(Ob("ob_link_untyped", {}, timeout=t, per_path=60, twin_timeout=60, bounds="(d) link value (int / list / opaque object) into an un-annotated parameter arrives unchanged"))
     obs.append(Ob("ob_predecessor", {}, timeout=t, per_path=30, bounds="(e) Query of <=3 segments (transform/resource), 1..3 actions each, optional file name"))
     return obs
